@@ -178,7 +178,10 @@ class ManageSieveConnection:
             match = self._literal_plus.search(data)
             if not match:
                 break
-            literal_length = int(match.group(1))
+            try:
+                literal_length = int(match.group(1))
+            except ValueError:
+                break  # too many digits, left for the parser to reject
             data += await self.reader.readexactly(literal_length)
         self._print('%d -->| %s', data)
         return memoryview(data)
@@ -299,6 +302,10 @@ class ManageSieveConnection:
                 break
             except NotParseable as exc:
                 resp = BadCommandResponse(exc)
+            except (ValueError, RecursionError) as exc:
+                bad_command = NotParseable(b'')
+                bad_command.__cause__ = exc
+                resp = BadCommandResponse(bad_command)
             else:
                 try:
                     if isinstance(cmd, NoOpCommand):
